@@ -67,3 +67,14 @@ register("C07", "exploration",
          "Bounded: the representation invariant `wired` (from the property statement) is monitored after every call of exhaustive short and random long sequences of construction-API calls with valid and invalid arguments; rejected calls must leave the edge set unchanged and raise ValueError (KeyError tolerated only for set_output of an absent node).",
          "oracle = vlib.spec.wired_violations; scope in evidence.bound",
          explanation="bounded stand-in of the C07 invariant")
+
+register("C12", "exploration",
+         "Bounded: every listed graph query is compared with an independent graph-theoretic definition on all DAGs up to 5 nodes, small cyclic digraphs and random circuits, for single nodes and node lists.",
+         "oracles = small reachability / longest-path routines in bounded/c12.py; scope in evidence.bound",
+         explanation="bounded stand-in of the C12 contracts")
+
+register("C13", "exploration",
+         "Bounded: generated adders/muxes/popcounts are simulated (independent simulator) against integer arithmetic exhaustively for small widths and on random vectors up to width 64; clog2 against integer bit_length on all small n and around every power of two up to 2^80; bit helpers round-trip; every block lint-clean.",
+         "oracle = integer arithmetic + vlib.oracle.simulate; scope in evidence.bound",
+         hashseeds={"quick": 2, "thorough": 4},
+         explanation="bounded stand-in of the C13 contracts")
